@@ -13,17 +13,44 @@
 (*  - the STRICT comparison "observed state = state computed by the        *)
 (*    concrete operators" only increments the drift counter (register 42). *)
 (***************************************************************************)
-EXTENDS HbMapOps, Json, IOUtils, TLCExt
+EXTENDS HbMapOps, Json, IOUtils, TLCExt, SequencesExt
 
 Rec == ndJsonDeserialize(IOEnv.TRACE)
+\* the property this validation run decides (C01 ... C20); "ALL" = every check is decisive
+PROP == IF "PROP" \in DOMAIN IOEnv THEN IOEnv.PROP ELSE "ALL"
+
+(* Which property a failed check is evidence against.  A failure that is not attributed to PROP
+   is counted as "foreign" (register 46), the abstract state is re-synchronised with the
+   observation and validation continues, so a check never raises an alarm for another property. *)
+EntryOps == {"e_or_insert", "e_or_insert_with", "e_or_insert_with_key", "e_and_modify_or_insert", "e_insert", "e_remove",
+             "e_remove_entry", "e_occ_insert", "e_occ_get_mut", "e_replace_some", "e_replace_none", "e_and_replace_some",
+             "e_and_replace_none", "e_vacant_drop", "e_insert_entry", "e_into_key", "er_or_insert", "er_insert",
+             "er_and_modify_or_insert", "er_drop", "er_insert_entry"}
+RawEntryOps == {"rc_or_insert", "rc_insert", "rc_remove", "rc_vacant_drop", "rc_insert_entry", "re_from_key_or_insert",
+                "re_hashed_or_insert", "re_from_hash_or_insert", "re_insert_hashed_nocheck", "re_insert_with_hasher",
+                "re_remove", "re_replace_some", "re_replace_none", "re_drop", "re_get"}
+KindProp(kind) == IF kind = "map" THEN {"C01"} ELSE IF kind = "set" THEN {"C07"} ELSE {"C06"}
+OpProp(op, kind) ==
+  {"C18"} \cup
+  (IF op \in EntryOps THEN {"C14"} \cup KindProp(kind)
+   ELSE IF op \in RawEntryOps THEN {"C14"}
+   ELSE IF op \in {"retain", "extract_if", "drain"} THEN {"C10"} \cup KindProp(kind)
+   ELSE IF op \in {"iter", "into_iter"} THEN {"C09"}
+   ELSE IF op \in {"clone", "clone_from", "eq"} THEN {"C11"}
+   ELSE IF op \in {"get_many_mut", "get_many_kv_mut"} THEN {"C15"} \cup KindProp(kind)
+   ELSE IF op = "try_reserve" THEN {"C12", "C08"}
+   ELSE IF op \in {"reserve", "shrink_to", "shrink_to_fit", "with_capacity", "new"} THEN {"C08"} \cup KindProp(kind)
+   ELSE KindProp(kind))
+SafetyProps == {"C02", "C04", "C05", "C13"}
 
 VARIABLES l,      \* next line of the trace
           hd,     \* header of the current scenario (reset event)
           tb,     \* sequence of table records (observed state)
           tx,     \* per table: [lv, pl, len, cap, asz]
           ab,     \* sequence of abstract contents
-          lk      \* leaked by mem::forget: [ids, blocks]
-tvars == <<l, hd, tb, tx, ab, lk>>
+          lk,     \* leaked by mem::forget: [ids, blocks]
+          ok      \* the current observed state satisfied the invariant (STRICT operators may be applied)
+tvars == <<l, hd, tb, tx, ab, lk, ok>>
 
 ---------------------------------------------------------------------------
 ObsTable(s, es) ==
@@ -97,7 +124,8 @@ Init == /\ l = 1
         /\ hd = [W |-> W]
         /\ tb = <<>> /\ tx = <<>> /\ ab = <<>>
         /\ lk = [ids |-> {}, blocks |-> <<>>]
-        /\ TLCSet(42, 0) /\ TLCSet(43, <<>>) /\ TLCSet(44, 0) /\ TLCSet(45, <<>>)
+        /\ TLCSet(42, 0) /\ TLCSet(43, <<>>) /\ TLCSet(44, 0) /\ TLCSet(45, <<>>) /\ TLCSet(46, 0) /\ TLCSet(47, <<>>)
+        /\ ok = TRUE
 
 Fail(line, what) == IF TLCGet(43) = <<>> THEN TLCSet(43, <<line, what>>) ELSE TRUE
 
@@ -108,13 +136,16 @@ ResetStep(e) ==
   /\ tx' = [i \in 1..e.nt |-> [lv |-> FALSE, pl |-> 0, len |-> 0, cap |-> 0, asz |-> 0]]
   /\ ab' = [i \in 1..e.nt |-> {}]
   /\ lk' = [ids |-> {}, blocks |-> <<>>]
+  /\ ok' = TRUE
 
 EndStep(e) ==
-  LET bad == (IF e.errs # <<>> THEN {"observer errors (allocator / registry)"} ELSE {})
-             \cup (IF hd.tr = 1 /\ e.nl # Cardinality(lk.ids) THEN {"elements leaked or still live at the end"} ELSE {})
-             \cup (IF e.nb # Len(lk.blocks) THEN {"allocator blocks leaked at the end"} ELSE {})
-  IN /\ IF bad # {} THEN Fail(l, bad) ELSE TRUE
-     /\ UNCHANGED <<hd, tb, tx, ab, lk>>
+  LET bad == (IF e.errs # <<>> THEN {<<"observer errors (allocator / registry): " \o e.errs[1], {"C02", "C03", "C04", "C05"}>>} ELSE {})
+             \cup (IF hd.tr = 1 /\ e.nl # Cardinality(lk.ids) THEN {<<"elements leaked or still live at the end", {"C03", "C04", "C05"}>>} ELSE {})
+             \cup (IF e.nb # Len(lk.blocks) THEN {<<"allocator blocks leaked at the end", {"C03", "C04", "C05"}>>} ELSE {})
+      mine == {b \in bad : PROP = "ALL" \/ PROP \in b[2]}
+  IN /\ IF mine # {} THEN Fail(l, {b[1] : b \in mine}) ELSE TRUE
+     /\ IF bad # {} /\ mine = {} THEN TLCSet(46, TLCGet(46) + 1) ELSE TRUE
+     /\ UNCHANGED <<hd, tb, tx, ab, lk, ok>>
 
 InsertLike == {"insert", "try_insert", "e_or_insert", "e_or_insert_with", "e_or_insert_with_key", "e_and_modify_or_insert",
                "e_insert", "e_insert_entry", "er_or_insert", "er_insert", "er_and_modify_or_insert", "er_insert_entry",
@@ -197,17 +228,24 @@ OpStep(e) ==
           [] e.op = "new" -> obsX[t].asz = 0
           [] OTHER -> TRUE
       chkPanic == e.pn \in {"", "index", "dup"}
-      bad == (IF ~chkPanic THEN {"unexpected panic inside a safe call: " \o e.pn} ELSE {})
-             \cup (IF ~chkLive THEN {"liveness of tables"} ELSE {})
-             \cup (IF ~chkInv THEN {"structural invariant violated on the observed state"}
-                                    \cup UNION {InvDiag(obsT[i], FALSE, TRUE) : i \in {j \in 1..hd.nt : lvAfter(j)}} ELSE {})
-             \cup (IF ~chkRet THEN {"result differs from the abstract specification"} ELSE {})
-             \cup (IF ~chkAbs THEN {"contents differ from the abstract specification"} ELSE {})
-             \cup (IF ~chkDrops THEN {"dropped elements differ from the abstract specification"} ELSE {})
-             \cup (IF ~chkLen THEN {"len()/capacity() contract"} ELSE {})
-             \cup (IF ~chkAlloc THEN {"allocator ledger / allocation_size"} ELSE {})
-             \cup (IF ~chkNoAlloc THEN {"allocation although len < capacity"} ELSE {})
-             \cup (IF ~chkReserve THEN {"capacity contract of " \o e.op} ELSE {})
+      opp == OpProp(e.op, hd.kind)
+      invd == UNION {InvDiag(obsT[i], FALSE, TRUE) : i \in {j \in 1..hd.nt : lvAfter(j)}}
+      invStruct == invd \cap {"I1 shape", "I2 mirror bytes", "I3 items = number of FULL bytes", "I4 an EMPTY bucket exists",
+                              "I5 growth_left accounting", "I9 FULL <=> slot holds an element"}
+      invFind == invd \ invStruct
+      bad == (IF ~chkPanic THEN {<<"unexpected panic inside a safe call: " \o e.pn, SafetyProps \cup opp>>} ELSE {})
+             \cup (IF ~chkLive THEN {<<"liveness of tables", SafetyProps>>} ELSE {})
+             \cup {<<"structural invariant violated on the observed state: " \o m, SafetyProps \cup opp \cup {"C08"}>> : m \in invStruct}
+             \cup {<<"findability invariant violated on the observed state: " \o m, opp \cup KindProp(hd.kind)>> : m \in invFind}
+             \cup (IF ~chkRet THEN {<<"result differs from the abstract specification", opp>>} ELSE {})
+             \cup (IF ~chkAbs THEN {<<"contents differ from the abstract specification", opp>>} ELSE {})
+             \cup (IF ~chkDrops THEN {<<"dropped elements differ from the abstract specification", {"C03", "C04"}>>} ELSE {})
+             \cup (IF ~chkLen THEN {<<"len()/capacity() contract", {"C08"} \cup opp>>} ELSE {})
+             \cup (IF ~chkAlloc THEN {<<"allocator ledger / allocation_size", {"C03", "C08", "C13"}>>} ELSE {})
+             \cup (IF ~chkNoAlloc THEN {<<"allocation although len < capacity", {"C08"}>>} ELSE {})
+             \cup (IF ~chkReserve THEN {<<"capacity contract of " \o e.op, {"C08"} \cup (IF e.op = "try_reserve" THEN {"C12"} ELSE {})>>} ELSE {})
+      mine == {b \in bad : PROP = "ALL" \/ PROP \in b[2]}
+      sane == invStruct = {} /\ invFind = {}
       \* ---------- STRICT (drift only)
       exp ==
         CASE e.op = "drop" -> pre
@@ -223,10 +261,15 @@ OpStep(e) ==
           [] e.op = "clone_from" -> NoIds(obsT[t]) = exp
           [] e.op = "iter" -> obsT[t] = pre /\ IterStrict(e)
           [] OTHER -> obsT[t] = exp
-  IN /\ IF bad # {} THEN Fail(l, bad) ELSE TRUE
-     /\ IF bad = {} /\ ~strictOK THEN TLCSet(42, TLCGet(42) + 1) /\ (IF TLCGet(45) = <<>> THEN TLCSet(45, <<l, e.op>>) ELSE TRUE) ELSE TRUE
+  IN /\ IF mine # {} THEN Fail(l, {b[1] : b \in mine}) ELSE TRUE
+     /\ IF bad # {} /\ mine = {} THEN TLCSet(46, TLCGet(46) + 1) /\ (IF TLCGet(47) = <<>> THEN TLCSet(47, <<l, e.op, {b[1] : b \in bad}>>) ELSE TRUE) ELSE TRUE
+     \* STRICT is evaluated only on states that passed the invariant (operators are partial outside it)
+     /\ IF bad = {} /\ ok /\ ~strictOK THEN TLCSet(42, TLCGet(42) + 1) /\ (IF TLCGet(45) = <<>> THEN TLCSet(45, <<l, e.op>>) ELSE TRUE) ELSE TRUE
      /\ TLCSet(44, TLCGet(44) + 1)
-     /\ tb' = obsT /\ tx' = obsX /\ ab' = newAb /\ lk' = lk2
+     /\ tb' = obsT /\ tx' = obsX /\ lk' = lk2
+     \* after a foreign failure the abstract state follows the observation
+     /\ ab' = IF bad = {} THEN newAb ELSE [i \in 1..hd.nt |-> IF obsX[i].lv THEN Elems(obsT[i]) ELSE {}]
+     /\ ok' = sane
      /\ UNCHANGED hd
 
 Next == /\ l <= Len(Rec)
@@ -239,11 +282,17 @@ Next == /\ l <= Len(Rec)
 
 Spec == Init /\ [][Next]_tvars
 
+SetToSeqStr(S) == IF S = {} THEN <<>> ELSE SetToSeq(S)
 Accepted ==
-  /\ PrintT(<<"STEPS", TLCGet(44), "DRIFT", TLCGet(42), "FIRSTDRIFT", TLCGet(45)>>)
-  /\ IF TLCGet(43) # <<>>
-     THEN Print(<<"REJECTED", TLCGet(43)[1], TLCGet(43)[2]>>, FALSE)
-     ELSE IF TLCGet("stats").diameter # Len(Rec) + 1
-     THEN Print(<<"REJECTED", TLCGet("stats").diameter, {"trace not consumed"}>>, FALSE)
-     ELSE PrintT(<<"ACCEPTED", Len(Rec)>>)
+  LET rej == TLCGet(43)
+      consumed == TLCGet("stats").diameter = Len(Rec) + 1
+      res == [steps |-> TLCGet(44), lines |-> Len(Rec), drift |-> TLCGet(42),
+              firstdrift |-> IF TLCGet(45) = <<>> THEN <<>> ELSE <<ToString(TLCGet(45)[1]), TLCGet(45)[2]>>,
+              foreign |-> TLCGet(46),
+              firstforeign |-> IF TLCGet(47) = <<>> THEN <<>> ELSE <<ToString(TLCGet(47)[1]), TLCGet(47)[2]>> \o SetToSeqStr(TLCGet(47)[3]),
+              rejected |-> IF rej # <<>> THEN 1 ELSE IF ~consumed THEN 2 ELSE 0,
+              line |-> IF rej # <<>> THEN rej[1] ELSE TLCGet("stats").diameter,
+              reasons |-> IF rej # <<>> THEN SetToSeqStr(rej[2]) ELSE IF ~consumed THEN <<"trace not consumed (specification has no step for this line)">> ELSE <<>>]
+  IN /\ PrintT("HBVRESULT " \o ToJson(res))
+     /\ rej = <<>> /\ consumed
 =============================================================================
